@@ -963,15 +963,24 @@ class NestedCommandsIrcProxy(ReplyIrcProxy):
                     allowedLength = conf.get(conf.supybot.reply.mores.length,
                         channel=target, network=self.irc.network)
                     if not allowedLength: # 0 indicates this.
+                        if self.private or self.to or msg.channel:
+                            recipient = target
+                        else:
+                            # _makeReply answers a query to the nick.
+                            recipient = msg.nick
+                        if minisix.PY3:
+                            byteLength = lambda x: len(x.encode())
+                        else:
+                            byteLength = len
                         allowedLength = (512
-                                - len(':') - len(self.irc.prefix)
+                                - len(':') - byteLength(self.irc.prefix)
                                 - len(' PRIVMSG ')
-                                - len(target)
+                                - byteLength(recipient)
                                 - len(' :')
                                 - len('\r\n')
                                 )
                         if self.prefixNick:
-                            allowedLength -= len(msg.nick) + len(': ')
+                            allowedLength -= byteLength(msg.nick) + len(': ')
                     maximumMores = conf.get(conf.supybot.reply.mores.maximum,
                         channel=target, network=self.irc.network)
                     maximumLength = allowedLength * maximumMores
